@@ -8,9 +8,9 @@ Import ListNotations.
 
 (* after a Disable, at the end of ANY history of operations: every joinpoint and every hook list is back
    to its pre-enable value, nothing is left on the disabler stack (repaired code) *)
-Theorem C14_disable_restores : forall (E : env) ops s0 ld esc,
+Theorem C14_disable_restores : forall (E : env) ops s0 ld esc at_,
   clean s0 -> f6_fixed E = true ->
-  let s := ai (run E (ops ++ [Disable]) (mkShell s0 ld esc)) in
+  let s := ai (run E (ops ++ [Disable]) (mkShell s0 ld esc at_)) in
   st s = DISABLED /\ (forall j, slot s j = slot s0 j) /\
   ast_l s = ast_l s0 /\ cleanup_l s = cleanup_l s0 /\ line_l s = line_l s0 /\
   disablers s = [] /\ ast_tr s = None.
@@ -20,9 +20,9 @@ Print Assumptions C14_disable_restores.
 (* the same for every way of ending up DISABLED (unload, reload that failed, an enable that failed and
    withdrew); valid for both code variants: on the unrepaired code all but input_transformers_cleanup is
    restored and that list only grows at its end *)
-Theorem C14_disable_restores_partial : forall (E : env) ops s0 ld esc,
+Theorem C14_disable_restores_partial : forall (E : env) ops s0 ld esc at_,
   clean s0 ->
-  let s := ai (run E ops (mkShell s0 ld esc)) in
+  let s := ai (run E ops (mkShell s0 ld esc at_)) in
   st s = DISABLED ->
   (forall j, slot s j = slot s0 j) /\ ast_l s = ast_l s0 /\ line_l s = line_l s0 /\
   (f6_fixed E = true -> cleanup_l s = cleanup_l s0) /\
@@ -34,8 +34,8 @@ Print Assumptions C14_disable_restores_partial.
 (* the full statement is false of the unrepaired code (F6): a terminal IPython >= 7, three
    load/unload cycles: input_transformers_cleanup has grown by three entries *)
 Definition E_terminal (f6 f14 : bool) : env :=
-  mkEnv RPost true AstTransformers true true ComplGlobal false PmMissing true true true true 40%N f6 f14.
-Definition s_terminal : state := init_state (fun _ => VUnset) [] [0; 1; 2; 3]%N [] 100%N.
+  mkEnv RPost true AstTransformers true true ComplGlobal false PmMissing true true true true 40%N f6 f14 true.
+Definition s_terminal : state := init_state (fun _ => VUnset) [] [0; 1; 2; 3]%N [] true 100%N.
 
 Lemma s_terminal_clean : clean s_terminal.
 Proof.
@@ -56,9 +56,9 @@ Print Assumptions C14_disable_restores_refuted.
 
 (* in state ENABLED, after any history: exactly one unadvise for each advised joinpoint and none for the
    others (so no advice is ever stacked on advice), at most one remover per hook list *)
-Theorem C14_enable_once : forall (E : env) ops s0 ld esc,
+Theorem C14_enable_once : forall (E : env) ops s0 ld esc at_,
   clean s0 ->
-  let s := ai (run E ops (mkShell s0 ld esc)) in
+  let s := ai (run E ops (mkShell s0 ld esc at_)) in
   st s = ENABLED ->
   (forall j, count_unadvise j (disablers s) = if is_advice (slot s j) then 1 else 0) /\
   (forall j, count_unadvise j (disablers s) <= 1) /\
@@ -68,28 +68,39 @@ Print Assumptions C14_enable_once.
 
 (* no accumulating residue: the snapshot of everything the property names (state, disabler stack, all
    fourteen joinpoints, the three hook lists, _ast_transformer) after ops ++ [Disable] is the initial one *)
-Theorem C14_no_residue : forall (E : env) ops s0 ld esc,
+Theorem C14_no_residue : forall (E : env) ops s0 ld esc at_,
   clean s0 -> f6_fixed E = true ->
-  snapshot (ai (run E (ops ++ [Disable]) (mkShell s0 ld esc))) = snapshot s0.
+  snapshot (ai (run E (ops ++ [Disable]) (mkShell s0 ld esc at_))) = snapshot s0.
 Proof. exact no_residue. Qed.
 Print Assumptions C14_no_residue.
 
-(* between operations the importer is DISABLED or ENABLED *)
-Theorem C14_state_machine : forall (E : env) ops s0 ld esc,
-  clean s0 -> let s := ai (run E ops (mkShell s0 ld esc)) in st s = DISABLED \/ st s = ENABLED.
+(* between operations the importer is DISABLED or ENABLED; it is ENABLING only while it was enabled before the
+   shell exists (ipython_config.py / `py` start-up order) and waits for app.init_shell(), which it has advised;
+   ENABLED implies that a shell exists *)
+Theorem C14_state_machine : forall (E : env) ops s0 ld esc at_,
+  clean s0 -> let s := ai (run E ops (mkShell s0 ld esc at_)) in
+  st s = DISABLED \/ (st s = ENABLED /\ has_shell s = true) \/
+  (st s = ENABLING /\ has_shell s = false /\ is_advice (slot s JInitShell) = true).
 Proof. exact state_machine. Qed.
 Print Assumptions C14_state_machine.
 
+(* the session-local import database (names registered with pyflyby.add_import) survives every operation:
+   no enable / disable / load / unload / reload / initialize forgets a registered name *)
+Theorem C14_registered_kept : forall (E : env) ops sh id,
+  In id (registered (ai sh)) -> In id (registered (ai (run E ops sh))).
+Proof. exact registered_kept. Qed.
+Print Assumptions C14_registered_kept.
+
 (* ENABLED -> every hook this IPython can take is installed (behavioural clause: while enabled, IPython
    reaches pyflyby's AST transformer / _ofind / completer advice; C06/C07 say what they then do) *)
-Theorem C14_enabled_hooks_installed : forall (E : env) ops s0 ld esc,
-  clean s0 -> let s := ai (run E ops (mkShell s0 ld esc)) in st s = ENABLED -> installed E s.
+Theorem C14_enabled_hooks_installed : forall (E : env) ops s0 ld esc at_,
+  clean s0 -> let s := ai (run E ops (mkShell s0 ld esc at_)) in st s = ENABLED -> installed E s.
 Proof. exact enabled_hooks_installed. Qed.
 Print Assumptions C14_enabled_hooks_installed.
 
 (* enabling succeeds from DISABLED unless this is the environment of F14 on the unrepaired code *)
 Theorem C14_enable_succeeds : forall (E : env) force s,
-  enable_ok E = true -> st s = DISABLED -> (errored s = false \/ force = true) ->
+  enable_ok E = true -> st s = DISABLED -> has_shell s = true -> (errored s = false \/ force = true) ->
   exists s', enable E force s = Ret s' tt /\ st s' = ENABLED /\ errored s' = false.
 Proof. exact enable_succeeds. Qed.
 Print Assumptions C14_enable_succeeds.
@@ -97,7 +108,7 @@ Print Assumptions C14_enable_succeeds.
 (* F14: under the jedi completer of IPython 9 (no `python_matches`) the unrepaired code never gets
    ENABLED - %load_ext leaves it DISABLED and errored; the repaired code enables *)
 Theorem C14_enable_jedi_refuted :
-  let E := mkEnv RPost true AstTransformers true true ComplGlobal true PmMissing true true true true 40%N true false in
+  let E := mkEnv RPost true AstTransformers true true ComplGlobal true PmMissing true true true true 40%N true false true in
   let s := ai (run E [LoadExt] (init_shell s_terminal)) in
   st s = DISABLED /\ errored s = true.
 Proof. vm_compute. split; reflexivity. Qed.
@@ -108,7 +119,25 @@ Example C14_nonvacuous_enabled :
   let s := ai (run (E_terminal true true) [Enable; Disable; LoadExt; EnableAgain] (init_shell s_terminal)) in
   st s = ENABLED /\ length (disablers s) = 9 /\ length (cleanup_l s) = 5 /\ length (ast_l s) = 1.
 Proof. vm_compute. repeat split. Qed.
+(* enabled before the shell exists: ENABLING with app.init_shell advised; app.initialize() completes it;
+   a disable in between removes the init_shell advice, and the later initialize() installs nothing *)
+Definition s_preshell : state := init_state (fun _ => VUnset) [] [0; 1; 2; 3]%N [] false 100%N.
+Example C14_nonvacuous_preshell :
+  let E := E_terminal true true in
+  let a := ai (run E [Enable] (init_shell s_preshell)) in
+  let b := ai (run E [Enable; Initialize] (init_shell s_preshell)) in
+  let c := ai (run E [Enable; Disable; Initialize] (init_shell s_preshell)) in
+  let d := ai (run E [Enable; Disable; Initialize; Enable; Disable] (init_shell s_preshell)) in
+  (st a = ENABLING /\ is_advice (slot a JInitShell) = true /\ length (disablers a) = 2) /\
+  (st b = ENABLED /\ length (disablers b) = 11 /\ length (ast_l b) = 1) /\
+  (st c = DISABLED /\ slot c JInitShell = VUnset /\ disablers c = [] /\ has_shell c = true) /\
+  snapshot d = snapshot s_preshell.
+Proof. vm_compute. repeat split. Qed.
+Example C14_nonvacuous_registered :
+  let s := ai (run (E_terminal true true) [LoadExt; AddImport 6%N; UnloadExt; LoadExt; ReloadExt; Disable; Enable] (init_shell s_terminal)) in
+  registered s = [6%N] /\ st s = ENABLED.
+Proof. vm_compute. split; reflexivity. Qed.
 Example C14_nonvacuous_jedi_repaired :
-  let E := mkEnv RPost true AstTransformers true true ComplGlobal true PmMissing true true true true 40%N true true in
+  let E := mkEnv RPost true AstTransformers true true ComplGlobal true PmMissing true true true true 40%N true true true in
   st (ai (run E [LoadExt] (init_shell s_terminal))) = ENABLED /\ enable_ok E = true.
 Proof. vm_compute. split; reflexivity. Qed.
